@@ -49,9 +49,9 @@ LEVEL_TEXT = ("Monotonicity is decided structurally and numerically on the live 
               "positive tick-free factors: z3 QF_NRA), the strict step lemma K3, linear glue G3/G4, and a CrossHair harness that "
               "builds K tempo events with the real builder over an axiomatised monotone clock and compares all tick pairs.")
 LEVEL_NOTE = "Trusted: E1 (monotone microsecond conversion), E3, S1-S5. Strictness claimed for BPM*resolution<=3e7 and time<=1e6 s."
-TECHNIQUE = "z3 lemmas on the live kernel AST + CrossHair symbolic execution of builder/lookup over a monotone uninterpreted clock"
+TECHNIQUE = "z3 lemmas on the live kernel AST + CrossHair symbolic execution of builder/lookup over a monotone uninterpreted clock + z3-generated boundary witnesses replayed through the real query"
 ENGINE = "FK+CH"
 EXPLANATION = "K2/K3/G3/G4 + monotone_pair harness; see obligation_table"
-BOUNDS = "numeric ranges of C01; K<=3/4 tempo events in CH"
+BOUNDS = "numeric ranges of C01; K<=3/4 tempo events in CH; 70 boundary witnesses in 14 regions"
 OUTSIDE = "as C01"
 ASSUMPTIONS = [S1, S3, S4, E1, E3]
